@@ -6,6 +6,7 @@ package main
 
 import (
 	"encoding/json"
+	"math"
 	"unsafe"
 	"fmt"
 	"reflect"
@@ -1429,19 +1430,72 @@ func matrixShapes() []shape {
 		{"[]interface{}-floats", []interface{}{0.25, float32(1.5), 1.5, float32(0.25)}}, {"[2]interface{}-floats", [2]interface{}{float32(1.5), 1.5}},
 		{"[]interface{}-mixed-structs", []interface{}{struct{ Name string }{"1"}, struct{ N int }{1}, Wrap{V: 1}, map[string]interface{}{"Name": "1"}, &struct{ Name string }{"a"}}},
 		{"[]interface{}-mixed-structs-2", []interface{}{struct{ N int }{1}, struct{ Name string }{"1"}}},
-		// values outside the modelled universe (the model answers U for a step that needs them; the
-		// real code must still return normally): maps keyed by pointers, arrays, structs, complex numbers,
-		// channels, interface keys of those kinds and a nil key; pointers to interfaces; non-empty
-		// interface types
+		// maps keyed by pointers, arrays, structs, complex numbers, channels, non-empty interface types,
+		// interface keys of those kinds and a nil key: every map key type is modelled (coerceKey / getMap in
+		// lean/Bexpr/Go/Pointer.lean; the key sweep below steps INTO them with every class of path part)
 		{"map[*int]int", map[*int]int{&one: 1}}, {"map[[2]int]string", map[[2]int]string{{1, 2}: "1"}}, {"map[struct]int", map[struct{ A int }]int{{1}: 1}},
 		{"map[complex128]int", map[complex128]int{1: 1}}, {"map[chan]int", map[chan int]int{make(chan int): 1}}, {"map[float32]string", map[float32]string{1: "1"}},
 		{"map[interface{}]-odd-keys", map[interface{}]interface{}{nil: 1, &one: 2, [1]int{1}: 3, struct{ A int }{1}: 4, 1.5: 5, true: 6, MyStr("1"): 7}},
 		{"map[MyInt]int", map[MyInt]int{1: 1}}, {"map[MyBool]int", map[MyBool]int{true: 1}}, {"map[int8]int", map[int8]int{1: 1}}, {"map[uint64]int", map[uint64]int{1: 1}},
 		{"map[string]nil-map", map[string]map[string]interface{}{"1": nil}}, {"map[string][]*Inner", map[string][]*Inner{"1": {nil, {}}}},
-		{"*interface{}-nil", &nilIface}, {"*interface{}-int", func() *interface{} { var x interface{} = 1; return &x }()}, {"**struct-nil-inner", func() **Inner { var p *Inner; return &p }()},
-		{"Stringer", fmt.Stringer(Sev(1))}, {"[]Stringer", []fmt.Stringer{nil, Sev(1)}}, {"map[string]Stringer", map[string]fmt.Stringer{"1": Sev(1), "2": nil}}, {"error", fmt.Errorf("1")},
-		{"struct-with-Stringer", struct{ S fmt.Stringer }{Sev(1)}}, {"struct-with-nil-Stringer", struct{ S fmt.Stringer }{}}, {"[1]map", [1]map[string]int{{"1": 1}}}, {"[1][]int", [1][]int{{1}}},
+		{"map[error]int", map[error]int{fmt.Errorf("1"): 1, nil: 2}}, {"map[Stringer]int", map[fmt.Stringer]int{Sev(1): 1}}, {"map[[1]int]string", map[[1]int]string{{1}: "1"}},
+		{"map[uintptr]int", map[uintptr]int{1: 1}}, {"map[[1]interface{}]int", map[[1]interface{}]int{{"1"}: 1, {nil}: 2}}, {"map[*[]byte]int", map[*[]byte]int{nil: 1}},
+		{"**struct-nil-inner", func() **Inner { var p *Inner; return &p }()},
+		{"[1]map", [1]map[string]int{{"1": 1}}}, {"[1][]int", [1][]int{{1}}},
 		{"[]func", []func(){nil}}, {"[]unsafe", []unsafe.Pointer{nil}}, {"[][2]byte", [][2]byte{{49, 50}}}, {"map[string][2]byte", map[string][2]byte{"1": {49, 50}}},
+		// values outside the modelled universe (the model answers U; the real code must still return
+		// normally): pointers to interfaces; VALUES of non-empty interface types (elements, fields, map values)
+		{"*interface{}-nil", &nilIface}, {"*interface{}-int", func() *interface{} { var x interface{} = 1; return &x }()},
+		{"Stringer", fmt.Stringer(Sev(1))}, {"[]Stringer", []fmt.Stringer{nil, Sev(1)}}, {"map[string]Stringer", map[string]fmt.Stringer{"1": Sev(1), "2": nil}}, {"error", fmt.Errorf("1")},
+		{"struct-with-Stringer", struct{ S fmt.Stringer }{Sev(1)}}, {"struct-with-nil-Stringer", struct{ S fmt.Stringer }{}},
+	}
+}
+
+type keyShape struct {
+	name   string
+	val    interface{}
+	panics bool // the key type makes mapstructure panic (known finding F12)
+}
+
+type keyS struct{ A int }
+type keyE struct{}
+type keyAny interface{}
+
+// keyShapes: maps of every kind of key type a Go map can have.
+func keyShapes() []keyShape {
+	one := 1
+	var nilp *int
+	e := fmt.Errorf("x")
+	return []keyShape{
+		{"map[uintptr]int", map[uintptr]int{1: 1}, false}, {"map[[0]int]int", map[[0]int]int{{}: 1}, false}, {"map[[0]keyS]int", map[[0]keyS]int{{}: 1}, false},
+		{"map[[1]int]int", map[[1]int]int{{1}: 1, {12}: 2}, false}, {"map[[2]int]int", map[[2]int]int{{1, 2}: 1, {1, 0}: 2}, false},
+		{"map[[1]MyInt]int", map[[1]MyInt]int{{1}: 1}, false}, {"map[[1]MyStr]int", map[[1]MyStr]int{{"1"}: 1, {""}: 2}, false}, {"map[[1]string]int", map[[1]string]int{{"1"}: 1, {"x"}: 2}, false},
+		{"map[[1]bool]int", map[[1]bool]int{{true}: 1, {false}: 2}, false}, {"map[[2]MyBool]int", map[[2]MyBool]int{{true, false}: 1, {false, true}: 2}, false},
+		{"map[[1]float64]int", map[[1]float64]int{{1}: 1, {1.5}: 2, {math.NaN()}: 3, {math.Copysign(0, -1)}: 4}, false},
+		{"map[[1]float32]int", map[[1]float32]int{{1}: 1, {1.5}: 2, {float32(math.Inf(1))}: 3}, false}, {"map[[1]MyFloat32]int", map[[1]MyFloat32]int{{1}: 1}, false},
+		{"map[[1]uint8]int", map[[1]uint8]int{{1}: 1, {16}: 2}, false}, {"map[[1]Octet]int", map[[1]Octet]int{{1}: 1}, false}, {"map[[1]int8]int", map[[1]int8]int{{1}: 1, {-1}: 2}, false},
+		{"map[[1]uintptr]int", map[[1]uintptr]int{{1}: 1}, false}, {"map[[1][1]int]int", map[[1][1]int]int{{{1}}: 1}, false},
+		{"map[[2][2]int]int", map[[2][2]int]int{{{1, 0}, {0, 0}}: 1, {{1, 1}, {0, 0}}: 2}, false}, {"map[[1][0]int]int", map[[1][0]int]int{{{}}: 1}, false}, {"map[[0][1]int]int", map[[0][1]int]int{{}: 1}, false},
+		{"map[[1]interface{}]int", map[[1]interface{}]int{{"1"}: 1, {1}: 2, {nil}: 3, {""}: 4}, false}, {"map[[2]interface{}]int", map[[2]interface{}]int{{"1", nil}: 1, {"1", 0}: 2, {"x", ""}: 3}, false},
+		{"map[[1]keyAny]int", map[[1]keyAny]int{{"1"}: 1}, false}, {"map[[1]*int]int", map[[1]*int]int{{&one}: 1, {nil}: 2}, false}, {"map[[2]*int]int", map[[2]*int]int{{nil, nil}: 2}, false},
+		{"map[[1]keyS]int", map[[1]keyS]int{{{1}}: 1}, false}, {"map[[1]complex128]int", map[[1]complex128]int{{1}: 1}, false}, {"map[[1]chan]int", map[[1]chan int]int{{nil}: 1}, false},
+		{"map[[1]unsafe.Pointer]int", map[[1]unsafe.Pointer]int{{nil}: 1}, false}, {"map[unsafe.Pointer]int", map[unsafe.Pointer]int{nil: 1}, false},
+		{"map[complex64]int", map[complex64]int{1: 1, 2: 2}, false}, {"map[chan]int", map[chan int]int{nil: 1, make(chan int): 2}, false}, {"map[keyS]int", map[keyS]int{{1}: 1, {2}: 2}, false}, {"map[keyE]int", map[keyE]int{{}: 1}, false},
+		{"map[error]int", map[error]int{nil: 1, e: 2, fmt.Errorf("x"): 3}, false}, {"map[Stringer]int", map[fmt.Stringer]int{Sev(1): 1}, false}, {"map[keyAny]int", map[keyAny]int{"1": 1, nil: 2, 1: 3}, false},
+		{"map[interface{}]int", map[interface{}]int{"1": 1, nil: 2, 1: 3, [1]int{1}: 4, keyS{1}: 5, &one: 6, true: 7, 1.5: 8}, false},
+		{"map[*int]int", map[*int]int{&one: 1, nilp: 2}, false}, {"map[*string]int", map[*string]int{nil: 2}, false}, {"map[*MyStr]int", map[*MyStr]int{nil: 2}, false}, {"map[*bool]int", map[*bool]int{nil: 2}, false},
+		{"map[*float32]int", map[*float32]int{nil: 2}, false}, {"map[*uintptr]int", map[*uintptr]int{nil: 2}, false}, {"map[*interface{}]int", map[*interface{}]int{nil: 2}, false},
+		{"map[**int]int", map[**int]int{nil: 2}, false}, {"map[*keyS]int", map[*keyS]int{nil: 2, {1}: 1}, false}, {"map[*keyE]int", map[*keyE]int{nil: 2, {}: 1}, false},
+		{"map[*[]int]int", map[*[]int]int{nil: 2}, false}, {"map[*[]byte]int", map[*[]byte]int{nil: 2}, false}, {"map[*[]Octet]int", map[*[]Octet]int{nil: 2}, false}, {"map[*[]string]int", map[*[]string]int{nil: 2}, false},
+		{"map[*[]keyS]int", map[*[]keyS]int{nil: 2}, false}, {"map[*[][]int]int", map[*[][]int]int{nil: 2}, false}, {"map[*[][]byte]int", map[*[][]byte]int{nil: 2}, false},
+		{"map[*map[string]int]int", map[*map[string]int]int{nil: 2}, false}, {"map[*func()]int", map[*func()]int{nil: 2}, false}, {"map[*chan_int]int", map[*chan int]int{nil: 2}, false},
+		{"map[*complex128]int", map[*complex128]int{nil: 2}, false}, {"map[*[1]int]int", map[*[1]int]int{nil: 2, {1}: 1}, false}, {"map[*[0]int]int", map[*[0]int]int{nil: 2, {}: 1}, false},
+		{"map[*[1]keyE]int", map[*[1]keyE]int{nil: 2, {}: 1}, false}, {"map[*[1]interface{}]int", map[*[1]interface{}]int{nil: 2}, false}, {"map[*[2]float64]int", map[*[2]float64]int{nil: 2}, false},
+		{"map[*unsafe.Pointer]int", map[*unsafe.Pointer]int{nil: 2}, false},
+		// F12: the key type leads, below a pointer, to an array of an uncomparable element type
+		{"map[*[1][]int]int", map[*[1][]int]int{nil: 2}, true}, {"map[*[0][]int]int", map[*[0][]int]int{nil: 2}, true}, {"map[*[1]map]int", map[*[1]map[string]int]int{nil: 2}, true},
+		{"map[*[1]func]int", map[*[1]func()]int{nil: 2}, true}, {"map[*[][1][]int]int", map[*[][1][]int]int{nil: 2}, true}, {"map[**[1][]int]int", map[**[1][]int]int{nil: 2}, true},
+		{"map[[1]*[1][]int]int", map[[1]*[1][]int]int{{nil}: 2}, true}, {"map[*[1][1][]int]int", map[*[1][1][]int]int{nil: 2}, true}, {"map[*[1]struct{[]int}]int", map[*[1]struct{ X []int }]int{nil: 2}, true},
 	}
 }
 
@@ -1566,6 +1620,35 @@ func fragMatrix(g *Gen, n int, o *Out) {
 			}
 		}
 	}
+	// key sweep: step INTO maps of every key type with every class of path part (the coercion of the part to
+	// the key type: pointerstructure.coerce / mapstructure.WeakDecode), directly and one level down
+	keyTotal := 0
+	for _, sh := range keyShapes() {
+		for _, part := range []string{"1", "", "x", "true", "1.5", "-1", "0x10", "300", "NaN", "-0", "1e40", "12"} {
+			for _, tail := range []string{`== "1"`, `== 1`, `is empty`, `!= 1`} {
+				for hi, h := range []interface{}{sh.val, map[string]interface{}{"m": sh.val}} {
+					text := fmt.Sprintf(`"/%s" %s`, part, tail)
+					if hi == 1 {
+						text = fmt.Sprintf(`"/m/%s" %s`, part, tail)
+					}
+					r := evalText(o, nil, text, h)
+					keyTotal++
+					o.count("keys:" + norm(r))
+					if r == "P" || r == "E1" {
+						what, class := "Evaluate panics", ""
+						if r == "E1" {
+							what = "error returned together with true"
+						} else if sh.panics {
+							// F12: mapstructure.decodeArray compares values of an uncomparable array type
+							class = "pointer-key-to-uncomparable-array"
+						}
+						o.finding(Finding{Property: "C09", Kind: "failing-input", What: fmt.Sprintf("%s: lookup of %q in %s", what, part, sh.name), Request: lastReq(o), Detail: text, Class: class})
+					}
+				}
+			}
+		}
+	}
+	o.meta.Notes = append(o.meta.Notes, fmt.Sprintf("key sweep: %d lookups into maps of every key type", keyTotal))
 	o.meta.Notes = append(o.meta.Notes, fmt.Sprintf("operator x shape matrix: %d shapes x 3 placements x 8 operators x literals = %d evaluations (exhaustive over the table)", len(shapes), total))
 	// random nesting
 	for i := 0; i < n; i++ {
